@@ -76,5 +76,5 @@ def run(ctx, factor):
                     rep.violate("answer-depends-on-other-objects-of-the-same-rule", case,
                                 {k: v[0] for k, v in diff.items()}, {k: v[1] for k, v in diff.items()}, model_agrees_with_spec=None)
         rep.case(patdiff.case_of(o), usable, tags=tags)
-        if rep.violations and factor > 1:
+        if rep.has_new() and factor > 1:
             return
